@@ -630,8 +630,11 @@ class _Imp(object):
     def block(self, stmts, result, ind):
         """Lean term for `stmts` followed by `result` (an ast node evaluated afterwards, or text)."""
         pad = "  " * ind
+        def is_log(st):          # logging has no effect on the values
+            return isinstance(st, ast.Expr) and isinstance(st.value, ast.Call) and \
+                ast.unparse(st.value.func).split(".")[0:-1] in (["logger"], ["self", "_logger"])
         stmts = [st for st in stmts if not (isinstance(st, ast.Expr) and isinstance(st.value, ast.Constant))
-                 and ast.unparse(st) not in self.skip]
+                 and ast.unparse(st) not in self.skip and not is_log(st)]
         saved = dict(self.env)
         lines = []
         for k, st in enumerate(stmts):
@@ -734,6 +737,20 @@ def gen_arith():
         out += ["/-- `AxisPosition.%s(%s)`: the new value of %s -/" % (fname, arg, ", ".join(r[5:] for r in res)),
                 "def %s %s (%s : α) : %s :=\n%s" % (fname, selfparams, arg, " × ".join("α" for _ in res),
                                                    imp.block(f.body, tup, 1)), ""]
+    # RetractionState.combine(other, logger): the new extrusionAmount
+    rs = ast.parse(_src("RetractionState.py"))
+    f = _method(rs, "RetractionState", "combine", ["other", "logger"])
+    if ast.unparse(f.body[-1]) != "return self":
+        raise TranslateError("arith: RetractionState.combine does not end in `return self`")
+    imp = _Imp({"self_allowCombine": "bool", "self_firmwareRetract": "bool", "other_firmwareRetract": "bool",
+                "self_extrusionAmount": "num", "other_extrusionAmount": "num"})
+    got = imp.assigned(f.body)
+    if got != ["self_extrusionAmount"]:
+        raise TranslateError("arith: attributes assigned by RetractionState.combine: %s" % got)
+    out += ["/-- `RetractionState.combine(other)`: the new extrusionAmount -/",
+            "def combine (self_allowCombine self_firmwareRetract other_firmwareRetract : Bool)\n"
+            "    (self_extrusionAmount other_extrusionAmount : α) : α :=\n"
+            + imp.block(f.body[:-1], "self_extrusionAmount", 1), ""]
     # ExcludeRegionState._exitCoordinate(axis, lastAxis) (a static method)
     st = ast.parse(_src("ExcludeRegionState.py"))
     f = None
